@@ -55,6 +55,9 @@ func LZFDecompress(in []byte, outlen int) ([]byte, error) {
 // FarRefs counts emitted back-references whose distance needs the high offset bits (evidence only).
 var FarRefs int64
 
+// VeryFarRefs counts back-references beyond 4096 bytes (the offset's top bit).
+var VeryFarRefs int64
+
 func LZFCompress(rng *prng.R, plain []byte) []byte {
 	var out []byte
 	var lit []byte
@@ -135,6 +138,9 @@ func LZFCompress(rng *prng.R, plain []byte) []byte {
 			d := bestDist - 1
 			if d >= 256 {
 				atomic.AddInt64(&FarRefs, 1)
+			}
+			if d >= 4096 {
+				atomic.AddInt64(&VeryFarRefs, 1)
 			}
 			if l-2 < 7 {
 				out = append(out, byte((l-2)<<5|d>>8), byte(d))
